@@ -20,13 +20,16 @@ Indent(s) == [i \in DOMAIN s |-> IF s[i] = "" THEN "" ELSE " " \o s[i]]      \* 
 Case(W(_)) == [t1 |-> W(src), t2 |-> W(W(src)), ir1 |-> Norm(src), ir2 |-> Norm(W(src))]
 
 NormAccepted == Findings(Case(Norm)) = <<>>
-GrowRejected == (\E i \in DOMAIN src : src[i] = "") =>
+GrowRejected == (\E i \in DOMAIN src : src[i] = "" /\ (\E j \in 1..(i - 1) : src[j] # "") /\ (\E j \in (i + 1)..Len(src) : src[j] # "")) =>
                    LET f == Findings(Case(Grow)) IN
                    /\ f # <<>> /\ f[1][1] = "text-fixpoint"
-                   /\ LET k == f[1][2] t1 == Grow(src) t2 == Grow(Grow(src)) IN
-                      /\ \A j \in 1..(k - 1) : t1[j] = t2[j]
+                   /\ LET k == f[1][2] - LeadCount(Grow(src), "") t1 == Trim(Grow(src), "") t2 == Trim(Grow(Grow(src)), "") IN
+                      /\ \A j \in 1..Min2(k - 1, Min2(Len(t1), Len(t2))) : t1[j] = t2[j]
                       /\ (k <= Len(t1) /\ k <= Len(t2) => t1[k] # t2[k])
 IndentRejected == (\E i \in DOMAIN src : src[i] # "") => \E k \in DOMAIN Findings(Case(Indent)) : Findings(Case(Indent))[k][1] = "text-fixpoint"
+\* empty lines at the two ends of the text do not count (the frontend strips the text it reads)
+Pad(s) == <<"">> \o s \o <<"", "">>
+EndsExempt == Findings([t1 |-> Pad(Norm(src)), t2 |-> Norm(src), ir1 |-> Norm(src) \o <<"BLANK">>, ir2 |-> Norm(src)]) = <<>>
 \* a writer whose output is stable but loses structure (drops the lines "A") is rejected by the IR clause
 Drop(s) == SelectSeq(s, LAMBDA l : l # "A")
 DropRejected == (\E i \in DOMAIN src : src[i] = "A") =>
